@@ -125,6 +125,7 @@ package plugins
 //@   requires inv(lrw)
 //@   ensures inv: inv(lrw)
 //@   ensures hijack_forwarded: implements(lrw.ResponseWriter, http.Hijacker) && result2 == nil ==> lrw.ResponseWriter.hijacked
+//@   ensures same_connection_as_the_wrapped_writer: implements(lrw.ResponseWriter, http.Hijacker) ==> result0.dyn == hconn_tag(ptr(lrw.ResponseWriter)) && result0.ref == hconn_val(ptr(lrw.ResponseWriter)) && ptr(result1) == hbrw(ptr(lrw.ResponseWriter))
 //@   ensures unsupported_is_an_error: !implements(lrw.ResponseWriter, http.Hijacker) ==> result2 != nil
 //@   modifies lrw.wroteHeader, http.ResponseWriter.hijacked
 
@@ -220,6 +221,7 @@ package plugins
 //@   requires inv(g)
 //@   ensures inv: inv(g)
 //@   ensures hijack_forwarded: implements(g.ResponseWriter, http.Hijacker) && result2 == nil ==> g.ResponseWriter.hijacked
+//@   ensures same_connection_as_the_wrapped_writer: implements(g.ResponseWriter, http.Hijacker) ==> result0.dyn == hconn_tag(ptr(g.ResponseWriter)) && result0.ref == hconn_val(ptr(g.ResponseWriter)) && ptr(result1) == hbrw(ptr(g.ResponseWriter))
 //@   ensures unsupported_is_an_error: !implements(g.ResponseWriter, http.Hijacker) ==> result2 != nil
 //@   modifies http.ResponseWriter.hijacked
 
@@ -368,5 +370,6 @@ package plugins
 //@   props C20
 //@   requires sr.ResponseWriter != nil
 //@   ensures hijack_forwarded: implements(sr.ResponseWriter, http.Hijacker) && result2 == nil ==> sr.ResponseWriter.hijacked
+//@   ensures same_connection_as_the_wrapped_writer: implements(sr.ResponseWriter, http.Hijacker) ==> result0.dyn == hconn_tag(ptr(sr.ResponseWriter)) && result0.ref == hconn_val(ptr(sr.ResponseWriter)) && ptr(result1) == hbrw(ptr(sr.ResponseWriter))
 //@   ensures unsupported_is_an_error: !implements(sr.ResponseWriter, http.Hijacker) ==> result2 != nil
 //@   modifies http.ResponseWriter.hijacked
